@@ -297,8 +297,10 @@ def write_evidence(prop, tier, seed, results, wall, nviol, known_hits, sens=None
         'wall_s': round(wall, 2),
         'violations': nviol,
     }
-    os.makedirs(os.path.join(VERIF, 'evidence'), exist_ok=True)
-    with open(os.path.join(VERIF, 'evidence', f'{prop}.json'), 'w') as f:
+    # experiments of the machinery on scratch copies (tools/regress_scratch.sh) must not touch the committed evidence
+    evdir = os.environ.get('VERIF_EVIDENCE_DIR') or os.path.join(VERIF, 'evidence')
+    os.makedirs(evdir, exist_ok=True)
+    with open(os.path.join(evdir, f'{prop}.json'), 'w') as f:
         json.dump(ev, f, indent=1)
 
 
